@@ -1,10 +1,10 @@
 #!/bin/sh
-# usage: tools/run_all.sh <tier> [seed ...]   - runs every registered check, prints one line per check
+# usage: [CHECKS="C01 C02"] tools/run_all.sh <tier> [seed ...]   - runs every registered check (or $CHECKS), prints one line per check
 cd "$(dirname "$0")/.." || exit 2
 TIER=${1:-quick}; shift
 SEEDS=${*:-0}
 for s in $SEEDS; do
-  for c in C01 C02 C03 C04 C05 C06 C07 C08 C09 C10 C11 C12 C13 C14 C15 C16 C17 C18 C19 C20; do
+  for c in ${CHECKS:-C01 C02 C03 C04 C05 C06 C07 C08 C09 C10 C11 C12 C13 C14 C15 C16 C17 C18 C19 C20}; do
     t0=$(date +%s)
     out=$(VERIF_SEED=$s ./check $c --tier $TIER --no-evidence 2>&1); rc=$?
     t1=$(date +%s)
